@@ -1,6 +1,144 @@
+(* C22 — printing a synthesised tree preserves its structure.  Theorems only; proofs in Proofs/Expr.v.
+
+   Model (Model/Expr.v): pr = printer.expr1 on a tree without positions, as a token list;
+   parse_expr = parser.ParseExpr on a token list, fuel-indexed; prec = Token.Precedence,
+   regenerated from token/token.go on every run (Gen/Tokens.v).
+
+   FULL STATEMENT (what C22 asks):
+     forall e, validb e = true -> noparb e = true ->
+       exists fuel e', parse_expr fuel (pr e) = ROk (PE e') [] /\ strip e' = e.
+   The faithful model REFUTES it (C22_print_parse_roundtrip_refuted and the witnesses below: the
+   printer omits parentheses around ErrWrapExpr.X, ErrWrapExpr.Default, StarExpr.X and around a lambda
+   or an "x ?: d" operand).  What is proved is the statement restricted by the decidable predicate
+   posokb, which says of every operand position that the operand is parenthesised by the printer or
+   is read back at that position by the parser; posokb fails exactly on the shapes above. *)
 From Coq Require Import List ZArith Bool.
 Import ListNotations.
-From V Require Import Base.Prelude Gen.Tokens Model.Expr Proofs.Expr.
+From V Require Import Base.Prelude Gen.Tokens Model.Expr Proofs.ExprFuel Proofs.Expr.
 Open Scope Z_scope.
-Example C22_placeholder : parse (pr (EBin xgo_ADD (EId [97%N]) (EId [98%N]))) = ROk (PE (EBin xgo_ADD (EId [97%N]) (EId [98%N]))) [].
-Proof. vm_compute. reflexivity. Qed.
+
+(* the round trip: the parser gives back the tree with exactly the printer's parentheses (norm e);
+   dropping parentheses gives the original tree *)
+Theorem C22_print_parse_roundtrip_partial : forall e,
+  validb e = true -> nolamb e = true -> noparb e = true -> posokb e = true ->
+  exists fuel e', parse_expr fuel (pr e) = ROk (PE e') [] /\ strip e' = e.
+Proof.
+  intros e V L N K. destruct (roundtrip e V L K) as [f Hf]. exists f, (norm e). split; auto.
+  now apply strip_norm_nopar.
+Qed.
+
+(* the same for trees that contain ParenExpr nodes (used by C19/C20): the result is norm e, it has the
+   structure of e, and printing it again gives the same tokens *)
+Theorem C22_roundtrip_norm : forall e,
+  validb e = true -> nolamb e = true -> posokb e = true ->
+  (exists fuel, parse_expr fuel (pr e) = ROk (PE (norm e)) []) /\ strip (norm e) = strip e /\ pr (norm e) = pr e.
+Proof.
+  intros e V L K. split; [now apply roundtrip|]. split; [apply (strip_norm (sz e)); auto|apply (pr_norm (sz e)); auto].
+Qed.
+
+(* more fuel never changes an answer: the parse result is a function of the tokens *)
+Theorem C22_parse_fuel_irrelevant : forall f f' ts,
+  parse_expr f ts <> RFuel -> parse_expr f' ts <> RFuel -> parse_expr f ts = parse_expr f' ts.
+Proof. exact parse_expr_stable. Qed.
+
+(* K-gen obligations over the regenerated precedence function: every binary operator has a precedence in
+   1 .. UnaryPrec-1, is not '=' (which the parser takes for '=='), and is none of the tokens that continue
+   or end an operand; closing delimiters have precedence 0; every level 1..5 has an operator *)
+Theorem C22_precedence_table : forall z, is_binop z = true -> binop_ok z = true.
+Proof. exact binop_facts. Qed.
+Theorem C22_delimiters_lowest : prec xgo_RPAREN = 0 /\ prec xgo_RBRACK = 0 /\ prec xgo_COMMA = 0 /\ prec xgo_ELLIPSIS = 0 /\ prec xgo_COLON = 0.
+Proof. destruct delim_prec as (A & B & C & D & E & _). auto. Qed.
+Theorem C22_levels_inhabited :
+  forallb (fun p => existsb (fun z => is_binop z && Z.eqb (prec z) p) (zrange 0 128)) [1;2;3;4;5] = true.
+Proof. exact levels_inhabited. Qed.
+
+(* ---- refutations of the full statement on the faithful model ---- *)
+Definition a := EId [97%N]. Definition b := EId [98%N]. Definition c := EId [99%N].
+
+(* ErrWrapExpr{X: a+b}  prints  a + b !   which reads  a + (b!) *)
+Theorem C22_errwrap_refuted : let e := EEw xgo_NOT (EBin xgo_ADD a b) in
+  validb e = true /\ noparb e = true /\ forall f e', parse_expr f (pr e) = ROk (PE e') [] -> strip e' <> e.
+Proof.
+  intros e. repeat split; try reflexivity.
+  apply (refute_by_witness 40 (pr e) e (ROk (PE (EBin xgo_ADD a (EEw xgo_NOT b))) [])); [vm_compute; reflexivity|discriminate|].
+  intros e' H. injection H as <-. vm_compute. discriminate.
+Qed.
+
+(* StarExpr{X: a+b}  prints  [*] a + b   which reads as the sum of [*]a and b *)
+Theorem C22_star_refuted : let e := EStar (EBin xgo_ADD a b) in
+  validb e = true /\ noparb e = true /\ forall f e', parse_expr f (pr e) = ROk (PE e') [] -> strip e' <> e.
+Proof.
+  intros e. repeat split; try reflexivity.
+  apply (refute_by_witness 40 (pr e) e (ROk (PE (EBin xgo_ADD (EStar a) b)) [])); [vm_compute; reflexivity|discriminate|].
+  intros e' H. injection H as <-. vm_compute. discriminate.
+Qed.
+
+(* ErrWrapExpr{X: a, Default: b+c}  prints  a ? : b + c   which reads  (a ?: b) + c *)
+Theorem C22_errwrap_default_refuted : let e := EEwd xgo_QUESTION a (EBin xgo_ADD b c) in
+  validb e = true /\ noparb e = true /\ forall f e', parse_expr f (pr e) = ROk (PE e') [] -> strip e' <> e.
+Proof.
+  intros e. repeat split; try reflexivity.
+  apply (refute_by_witness 40 (pr e) e (ROk (PE (EBin xgo_ADD (EEwd xgo_QUESTION a b) c)) [])); [vm_compute; reflexivity|discriminate|].
+  intros e' H. injection H as <-. vm_compute. discriminate.
+Qed.
+
+(* SelectorExpr{X: a ?: b}  prints  a ? : b . f   which reads  a ?: (b.f) *)
+Theorem C22_default_operand_refuted : let e := ESel (EEwd xgo_QUESTION a b) [102%N] in
+  validb e = true /\ noparb e = true /\ forall f e', parse_expr f (pr e) = ROk (PE e') [] -> strip e' <> e.
+Proof.
+  intros e. repeat split; try reflexivity.
+  apply (refute_by_witness 40 (pr e) e (ROk (PE (EEwd xgo_QUESTION a (ESel b [102%N]))) [])); [vm_compute; reflexivity|discriminate|].
+  intros e' H. injection H as <-. vm_compute. discriminate.
+Qed.
+
+(* BinaryExpr{X: x => x, +, c}  prints  x => x + c   which reads  x => (x + c);
+   BinaryExpr{X: c, +, Y: x => x}  prints  c + x => x   which is a syntax error *)
+Theorem C22_lambda_operand_refuted :
+  let x := [120%N] in let e1 := EBin xgo_ADD (ELam [x] false [EId x] false) c in let e2 := EBin xgo_ADD c (ELam [x] false [EId x] false) in
+  validb e1 = true /\ noparb e1 = true /\ (forall f e', parse_expr f (pr e1) = ROk (PE e') [] -> strip e' <> e1) /\
+  validb e2 = true /\ noparb e2 = true /\ (forall f e', parse_expr f (pr e2) = ROk (PE e') [] -> strip e' <> e2).
+Proof.
+  intros x e1 e2. repeat split; try reflexivity.
+  - apply (refute_by_witness 40 (pr e1) e1 (ROk (PE (ELam [x] false [EBin xgo_ADD (EId x) c] false)) [])); [vm_compute; reflexivity|discriminate|].
+    intros e' H. injection H as <-. vm_compute. discriminate.
+  - apply (refute_by_witness 40 (pr e2) e2 RErr); [vm_compute; reflexivity|discriminate|]. intros e' H. discriminate.
+Qed.
+
+(* hence the full statement is false on the model *)
+Theorem C22_print_parse_roundtrip_refuted :
+  ~ (forall e, validb e = true -> noparb e = true -> exists fuel e', parse_expr fuel (pr e) = ROk (PE e') [] /\ strip e' = e).
+Proof.
+  intros H. destruct C22_star_refuted as (V & N & R). destruct (H _ V N) as (f & e' & Hp & Hs). exact (R f e' Hp Hs).
+Qed.
+
+(* ---- non-vacuity: the hypotheses hold of a tree that uses every proved kind and needs parentheses in
+   each way, and the conclusion can be computed for it ---- *)
+Definition big : expr :=
+  EBin xgo_MUL
+    (EBin xgo_ADD a (EUn xgo_SUB (EUn xgo_SUB b)))
+    (EBin xgo_SUB
+       (ECall (ESel (EUn xgo_SUB a) [102%N]) [EBin xgo_LOR a b; EIdx (EStar a) (ELit xgo_INT [49%N]); EEwd xgo_QUESTION (ECall a [] false) (EUn xgo_NOT c)] true)
+       (EBin xgo_SUB (EEw xgo_NOT (ECall b [c] false)) (EBin xgo_SRARROW a b))).
+Example C22_example_hypotheses : validb big = true /\ nolamb big = true /\ noparb big = true /\ posokb big = true.
+Proof. vm_compute. auto. Qed.
+Example C22_example_roundtrip : parse (pr big) = ROk (PE (norm big)) [] /\ strip (norm big) = big /\ norm big <> big.
+Proof. vm_compute. repeat split; try reflexivity. discriminate. Qed.
+(* posokb is what separates the proved trees from the refuted ones *)
+Example C22_example_posok_fails :
+  posokb (EEw xgo_NOT (EBin xgo_ADD a b)) = false /\ posokb (EStar (EBin xgo_ADD a b)) = false /\
+  posokb (EEwd xgo_QUESTION a (EBin xgo_ADD b c)) = false /\ posokb (ESel (EEwd xgo_QUESTION a b) [102%N]) = false /\
+  posokb (EEw xgo_NOT (ECall a [] false)) = true /\ posokb (EStar (EUn xgo_SUB a)) = true.
+Proof. vm_compute. auto 10. Qed.
+
+Print Assumptions C22_print_parse_roundtrip_partial.
+Print Assumptions C22_roundtrip_norm.
+Print Assumptions C22_parse_fuel_irrelevant.
+Print Assumptions C22_precedence_table.
+Print Assumptions C22_delimiters_lowest.
+Print Assumptions C22_levels_inhabited.
+Print Assumptions C22_errwrap_refuted.
+Print Assumptions C22_star_refuted.
+Print Assumptions C22_errwrap_default_refuted.
+Print Assumptions C22_default_operand_refuted.
+Print Assumptions C22_lambda_operand_refuted.
+Print Assumptions C22_print_parse_roundtrip_refuted.
